@@ -28,6 +28,7 @@ LENSES = {
     "C06": "c06",
     "C07": "c07",
     "C12": "c12",
+    "C13": "c13",
     "C17": "c17",
 }
 
